@@ -9,6 +9,7 @@
   quota def <site> <n>             -> accepted | refused InvalidDefinition
   quota name <asyncio|flask> "<s>" -> accepted | refused InvalidName
   quota hist <h0> [adds…]          -> ok {"failed":b,"len":n}
+  quota histp <h0> [[e,adds]…]     -> ok {"failed":b,"len":n}   (passes: e = 1 first entry, 0 re-entry)
   quota limits                     -> ok {…the generated constants…}
 -/
 import AslModel.Drv.Util
@@ -50,6 +51,15 @@ def natList : List Json → Option (List Nat)
     if n < 0 then none else
     match natList rest with
     | some xs => some (n.toNat :: xs)
+    | none => none
+  | _ => none
+
+def pairList : List Json → Option (List (Nat × Nat))
+  | [] => some []
+  | .arr [.num e, .num a] :: rest =>
+    if e < 0 || a < 0 then none else
+    match pairList rest with
+    | some xs => some ((e.toNat, a.toNat) :: xs)
     | none => none
   | _ => none
 
@@ -103,6 +113,15 @@ def handle : List String → String
       match natList xs with
       | some adds =>
         let r := runHistory h adds
+        "ok\t" ++ js (.obj [("failed".toList, .bool r.failed), ("len".toList, nat r.len)])
+      | none => "unsupported"
+    | _, _ => "unsupported"
+  | ["histp", h0, j] =>
+    match natOf h0, rd j with
+    | some h, some (.arr xs) =>
+      match pairList xs with
+      | some ps =>
+        let r := runPasses h ps
         "ok\t" ++ js (.obj [("failed".toList, .bool r.failed), ("len".toList, nat r.len)])
       | none => "unsupported"
     | _, _ => "unsupported"
